@@ -719,6 +719,21 @@ def _arc_new(eng, st, args, dty, callee, m):
     return eng.alloc(st, args[0])
 
 
+@summary(r"^(std::boxed::)?Box::<\[.*; \d+\]>::new_uninit$", "vec![..] expansion: Box<[T; N]>::new_uninit = fresh heap cell shaped MaybeUninit<[T; N]>")
+def _box_new_uninit(eng, st, args, dty, callee, m):
+    cell = VStruct([VStruct([], "()"), VStruct([VStruct([VPoison("uninitialised box")], "MaybeDangling")], "ManuallyDrop")], "MaybeUninit")
+    return VStruct([VStruct([eng.alloc(st, cell)], "Unique")], "Box")
+
+
+@summary(r"^std::boxed::box_assume_init_into_vec_unsafe::<.*>$", "vec![..] expansion: the initialised boxed array becomes a Vec of its N elements")
+def _box_into_vec(eng, st, args, dty, callee, m):
+    cell = eng.load(st, args[0].f[0].f[0])
+    arr = cell.f[1].f[0].f[0]
+    if not isinstance(arr, VArr):
+        raise SymError("box_assume_init_into_vec_unsafe: box was not initialised with an array")
+    return VSeq(list(arr.elems), bv(len(arr.elems), 64))
+
+
 @summary(r"^std::sync::Mutex::<.*>::new$|^std::sync::RwLock::<.*>::new$|^parking_lot::lock_api::(RwLock|Mutex)::<.*>::new$|^tokio::sync::(RwLock|Mutex)::<.*>::new$",
          "Mutex/RwLock::new: transparent wrapper (single-threaded model)")
 def _lock_new(eng, st, args, dty, callee, m):
